@@ -105,6 +105,7 @@ type Exec struct {
 	st        *State
 	cleanExit *Term // path conditions of os.Exit(0) in driver mode
 	loopSeen, loopBack map[string]bool // loops cut by invariants / whose back edge was reached
+	ropes map[*Object]*rope // how byte strings were put together by successive writes (models_buf.go)
 	assumes   []*Term
 	obls      []*Obligation
 	inputs    []inputRec
@@ -823,7 +824,7 @@ func (x *Exec) step(fr *Frame, ins ssa.Instruction) {
 	case *ssa.Slice:
 		st.regs[i] = x.sliceOp(i, fr)
 	case *ssa.MakeSlice:
-		st.regs[i] = x.makeSlice(i.Type().Underlying().(*types.Slice).Elem(), term(x.get(i.Len)), term(x.get(i.Cap)), i.Pos(), fr)
+		st.regs[i] = x.makeSlice(i.Type().Underlying().(*types.Slice).Elem(), extendTo64(term(x.get(i.Len)), i.Len.Type()), extendTo64(term(x.get(i.Cap)), i.Cap.Type()), i.Pos(), fr)
 	case *ssa.Lookup:
 		st.regs[i] = x.lookup(i, fr)
 	case *ssa.MakeMap:
@@ -1425,6 +1426,15 @@ func (x *Exec) sliceOfNestedArray(p PtrV, n int64, i *ssa.Slice, lo *Term, fr *F
 	return SliceV{Obj: alias, Off: lo, Len: BvSub(hi, lo), Cap: BvSub(bv64(n), lo), Nil: False()}
 }
 
+// extendTo64 widens an integer operand according to the signedness of its type.
+func extendTo64(t *Term, ty types.Type) *Term {
+	signed := true
+	if b, ok := ty.Underlying().(*types.Basic); ok && b.Info()&types.IsUnsigned != 0 {
+		signed = false
+	}
+	return Resize(t, 64, signed)
+}
+
 func (x *Exec) makeSlice(elem types.Type, ln, cp *Term, pos token.Pos, fr *Frame) Value {
 	ln = Resize(ln, 64, true)
 	cp = Resize(cp, 64, true)
@@ -1846,8 +1856,8 @@ func (x *Exec) callStatic(fr *Frame, fn *ssa.Function, args []Value, bind []Valu
 		return x.smtCall(fn, k, args)
 	}
 	forced := x.forceInline[shortFn(fn)] || x.forceInline["*"]
-	if sp0 := x.P.specs[name]; sp0 != nil && sp0.Trusted {
-		forced = false // an assumed contract has no body to fall back on
+	if sp0 := x.P.specs[name]; sp0 != nil && sp0.Trusted && fn.Blocks == nil {
+		forced = false // an assumed contract of an external function has no body to fall back on
 	}
 	if !ghost && !forced {
 		if sp := x.pickBehavior(fn, name, args); sp != nil && sp.HasContract() && !sp.Inline && x.P.harnessOf[sp.Key()] != nil {
@@ -2015,6 +2025,19 @@ func (x *Exec) copyOp(fr *Frame, args []Value, pos token.Pos) Value {
 		for i := 0; i < nd; i++ {
 			g := BvUlt(bv64(int64(i)), src.Len)
 			x.store(PtrV{Obj: dst.Obj, Path: []PathElem{{Field: -1, Idx: BvAdd(dst.Off, bv64(int64(i)))}}, Nil: False()},
+				x.elemAt(src, bv64(int64(i))), g)
+		}
+		return Scalar{n}
+	}
+	if av, isArr := x.heapGet(dst.Obj).(ArrayV); isArr && dst.Off.IsConst() && len(av.E) <= 512 {
+		// concrete backing store, symbolic number of elements: element-wise conditional stores
+		off := int(dst.Off.Val.Int64())
+		for i := 0; off+i < len(av.E); i++ {
+			g := BvUlt(bv64(int64(i)), n)
+			if g.IsFalse() {
+				break
+			}
+			x.store(PtrV{Obj: dst.Obj, Path: []PathElem{{Field: -1, Idx: bv64(int64(off + i))}}, Nil: False()},
 				x.elemAt(src, bv64(int64(i))), g)
 		}
 		return Scalar{n}
